@@ -6,7 +6,20 @@ HERE = os.path.dirname(os.path.dirname(os.path.abspath(__file__)))
 ALL = ["C%02d" % i for i in range(1, 19)]
 
 # id -> (engine, technique, level text, level note, design ref)
+MODEL_NOTE = "Trusted: SQLite 3.49 (bundled, math functions on) as the executing engine incl. its NULL ordering and binary collation; the reference interpreter's reading of the PRQL book (harness/src/model/eval.rs); results the book leaves open are counted as ambiguous and not judged. Recorded findings are excluded from the default generator by construction and re-exercised by probes and hazard sweeps (known_findings.json). Engines other than SQLite are not executed."
 CHECKS = {
+ "C01": ("model",
+  "proptest tape-decoded program generation + differential execution on SQLite against an independent reference interpreter",
+  "Each generated relational-core program is compiled (sqlite, generic), executed on an in-process SQLite over a generated instance and compared - values, multiplicities, and order where a sort is in effect - with a reference interpreter written from the PRQL book. Sampling: holds on everything explored, shrunk counterexample otherwise.",
+  MODEL_NOTE, "DESIGN.md §2, §3 C01"),
+ "C03": ("model",
+  "proptest sort/take-biased program generation + differential execution (tie-class sequence oracle) + metamorphic slice invariant",
+  "Sort-biased programs are executed on SQLite and the row sequence is compared with the reference order as a sequence of tie classes; additionally `P | take a..b` must equal rows a..b of P's own result for total orders (reference-free).",
+  MODEL_NOTE, "DESIGN.md §3 C03"),
+ "C04": ("model",
+  "proptest window-biased program generation + differential execution against a reference window evaluator",
+  "Window-biased programs (partition x sort x frame kind x bounds x function x placement) are executed on SQLite and compared row by row with a reference window evaluation; the comparison also fixes the row count.",
+  MODEL_NOTE, "DESIGN.md §3 C04"),
  "C17": ("lexenum",
   "exhaustive small-scope enumeration + proptest random fragment strings against a tiling / re-lex round-trip oracle",
   "Every string up to length 5 (quick) / 6 (thorough) over five themed alphabets of lexically significant characters is lexed and checked against the tiling and re-lex oracle (exhaustive within that bound), plus random fragment concatenations up to 200 chars. Holds on everything explored; says nothing beyond the bound except by sampling.",
@@ -42,6 +55,7 @@ def main():
             "add_only": True,
         },
         "engines": [
+            {"name": "model", "path": "harness/src/model", "serves_properties": ["C01", "C03", "C04"], "kind_free_text": "tape-decoded abstract programs, PRQL printer, reference interpreter, in-process SQLite executor"},
             {"name": "lexenum", "path": "harness/src/prop/c17.rs", "serves_properties": ["C17"], "kind_free_text": "exhaustive enumeration of short strings + proptest tape search"},
         ],
         "checks": checks,
